@@ -267,7 +267,7 @@ pub(crate) mod kani_verif {
     // ---- quick tier: 2-level build (smallest structures); thorough tier: default 8-level capacity (config w8)
     // @h name=c04_core_l1 props=C04,C11,C05,C03 tier=quick kind=proved cfg=L2w8 timeout=1500 kani_args="--no-memory-safety-checks --no-undefined-function-checks" funcs=hss_sign_core;ReferenceImplPrivateKey::from_binary_representation;ReferenceImplPrivateKey::to_binary_representation;CompressedParameterSet::to contract="(callee ReferenceImplPrivateKey::increment by its contract, proved in c05_outer_inc_*) Ok => callback invoked exactly once, after signing, returned Ok, argument == successor blob (counter+1 / wiped); callback Err => Err; any failure => callback not invoked; every key blob with a valid 1-level list"
     protocol_harness!(c04_core_l1, false, 1);
-    // @h name=c04_core_l2 props=C04,C11,C05,C03 tier=thorough kind=proved cfg=L2w8 timeout=1500 kani_args="--no-memory-safety-checks --no-undefined-function-checks" funcs=hss_sign_core contract="same, valid 2-level lists"
+    // @h name=c04_core_l2 props=C04,C11,C05,C03 tier=extended kind=proved cfg=L2w8 timeout=1500 kani_args="--no-memory-safety-checks --no-undefined-function-checks" funcs=hss_sign_core contract="same, valid 2-level lists"
     protocol_harness!(c04_core_l2, false, 2);
     // @h name=c04_core_empty props=C04,C11!,C05! tier=quick kind=proved cfg=L2w8 timeout=1500 kani_args="--no-memory-safety-checks --no-undefined-function-checks" funcs=hss_sign_core;CompressedParameterSet::to contract="empty parameter list (wiped / exhausted key): Err, callback not invoked, nothing signed"
     protocol_harness!(c04_core_empty, false, 0);
@@ -279,7 +279,7 @@ pub(crate) mod kani_verif {
     protocol_harness!(c04_core_bad1_L2small, false, 11);
     // @h name=c04_core_toomany props=C04,C11!,C14! tier=quick kind=proved cfg=L2w8 timeout=1500 kani_args="--no-memory-safety-checks --no-undefined-function-checks" funcs=hss_sign_core;ReferenceImplPrivateKey::from_binary_representation contract="more levels than the build supports: Err, callback not invoked"
     protocol_harness!(c04_core_toomany, false, 20);
-    // @h name=c04_hss_sign_l1 props=C04,C09 tier=thorough kind=proved cfg=L2w8 timeout=1500 kani_args="--no-memory-safety-checks --no-undefined-function-checks" funcs=hss_sign contract="same protocol through the public byte-level entry point hss_sign, 1 level"
+    // @h name=c04_hss_sign_l1 props=C04,C09 tier=extended kind=proved cfg=L2w8 timeout=1500 kani_args="--no-memory-safety-checks --no-undefined-function-checks" funcs=hss_sign contract="same protocol through the public byte-level entry point hss_sign, 1 level"
     protocol_harness!(c04_hss_sign_l1, true, 1);
     // @h name=c04_w8_l1 props=C04,C11,C05,C03 tier=extended kind=proved cfg=w8 timeout=3000 kani_args="--no-memory-safety-checks --no-undefined-function-checks" funcs=hss_sign_core contract="default capacity (8 levels): valid 1-level lists"
     protocol_harness!(c04_w8_l1, false, 1);
